@@ -1,6 +1,7 @@
 import GoaVerif.Model.Validation
 import GoaVerif.Generated.FactsValCode
 import GoaVerif.Lemmas.ValCode
+import GoaVerif.Lemmas.ValFuel
 /-!
 # C04 — validations gate user code: property theorems over the specification
 `GoaVerif.Model.Validation` is the *specification* of the design's constraints, tied to the
@@ -269,6 +270,15 @@ def requiredOnly : Att := .obj [("g0", true, .prim (.number false none none) {})
 theorem required_only_type_must_be_validated :
     noRules 3 requiredOnly = false ∧ violations 3 requiredOnly (.obj []) = [.missingField] ∧
     runL (compileBody 3 requiredOnly) (.obj []) = [.missingField] := by decide
+
+/-- **The fuel of the recursive definitions is immaterial.** `violations` and `compile` take a fuel argument
+    only because their types are nested; with any fuel above the depth of the value (of the attribute) the verdict
+    (the code) is the same — the theorems above therefore speak about THE specification and THE emitted code,
+    and the drivers may pick any sufficient fuel. -/
+theorem fuel_is_immaterial (f g : Nat) (a : Att) (v : Val)
+    (hf : vdepth v < f) (hg : vdepth v < g) (haf : adepth a < f) (hag : adepth a < g) :
+    violations f a v = violations g a v ∧ compileBody f a = compileBody g a :=
+  ⟨violations_fuel_indep f g a v hf hg, compile_fuel_indep f g true true a haf hag⟩
 
 /-- the two hypotheses are needed — the emitted code itself is wrong there (both are known findings,
     reproduced on generated servers by `vlib/c04.py`): -/
